@@ -1713,6 +1713,9 @@ func (self *LeaderResultCommand) Decode(buf []byte) error {
 		buf[11], buf[12], buf[13], buf[14], buf[15], buf[16], buf[17], buf[18]
 
 	self.Result, self.HostLen = uint8(buf[19]), uint8(buf[20])
+	if self.HostLen > 43 {
+		return errors.New("HostLen too long")
+	}
 	self.Host = string(buf[21 : 21+self.HostLen])
 	return nil
 }
